@@ -700,6 +700,8 @@ class ConfigRun(object):
             unit_per_deg = MERC_LIMIT_Y / 180.0
         else:
             return None, 'kml-srs-not-latlon-parallel'
+        if rect[2] < rect[0] or rect[3] < rect[1]:
+            return None, 'kml-inverted-box'
         if not (rect[2] > rect[0] and rect[3] > rect[1]):
             return None, 'kml-empty-box'
         res = (rect[2] - rect[0]) / size[0]
@@ -787,6 +789,11 @@ class ConfigRun(object):
             return False, None
         rect, size, why = self._rect_and_size(tile, arr)
         if rect is None:
+            if why == 'kml-inverted-box':
+                self.stats.case(key=key, nontrivial=False, classes=classes + ['answer:kml-inverted-box'])
+                self.violation('C02/kml/latlonbox-inverted', 'GroundOverlay LatLonBox (west, south, east, north) = %r has north < south '
+                               'or east < west' % ([float(v) for v in tile.rect],), pick, tile)
+                return False, None
             if why == 'srs-mismatch':
                 self.stats.case(key=key, nontrivial=False, classes=classes + ['answer:srs-mismatch'])
                 self.violation('C02/%s/srs' % svc, 'document advertises SRS %r for a grid in %r'
@@ -940,6 +947,8 @@ class ConfigRun(object):
         rect = tuple(Fr(v) for v in rect)
         tol = Fr(1, 10 ** 6) if tile.service != 'kml' else Fr(1, 1000)
         twins = []
+        near = []     # addresses whose rectangle differs from `rect` by more than 1e-6 but less than 2e-2 tile spans
+        loose = Fr(2, 100)
         tms_addr = None
         wmts_addr = None
         tm = self.tms_map
@@ -947,22 +956,43 @@ class ConfigRun(object):
         skip_wmsc = SIG_WMSC_ORIGIN in self.open and self.extent_corner_differs()
         skip_wmts = (SIG_WMTS_UNITS in self.open and self._non_metre_projected())
         if tm is not None and self.native('tms') and not skip_tms:
-            for (i, x, y) in tm.locate(rect, tol, MIN_OVERLAP_PX):
+            exact = tm.locate(rect, tol, MIN_OVERLAP_PX)
+            for (i, x, y) in exact:
                 tms_addr = (i, x, y)
                 if tile.service != 'tms':
                     twins.append(tm.tile(i, x, y))
+            if tile.service not in ('tms', 'kml') and not exact:
+                near += [tm.tile(i, x, y) for (i, x, y) in tm.locate(rect, loose, MIN_OVERLAP_PX)]
         for enc, c in sorted(self.wmts.items()):
             if not self.native('wmts') or skip_wmts:
                 continue
-            for (tms, mi, col, row) in c.locate('lyr', rect, tol):
+            exact = c.locate('lyr', rect, tol)
+            for (tms, mi, col, row) in exact:
                 if SIG_WMTS_SQRT2 in self.open and self._is_sqrt2() and mi > 0:
                     continue
                 wmts_addr = (mi, col, row)
                 if tile.service != 'wmts-' + enc:
                     twins.append(c.tile('lyr', tms, mi, col, row, encoding=enc))
+            if not tile.service.startswith('wmts') and tile.service != 'kml' and not exact \
+                    and not (SIG_WMTS_SQRT2 in self.open and self._is_sqrt2()):
+                near += [c.tile('lyr', tms, mi, col, row, encoding=enc) for (tms, mi, col, row) in c.locate('lyr', rect, loose)]
         if self.wmsc is not None and self.native('wmsc') and tile.service != 'wmsc' and not skip_wmsc:
-            for (li, x, y) in self.wmsc.locate(self.wmsc_ts, rect, tol, MIN_OVERLAP_PX):
+            exact = self.wmsc.locate(self.wmsc_ts, rect, tol, MIN_OVERLAP_PX)
+            for (li, x, y) in exact:
                 twins.append(self.wmsc.tile(self.wmsc_ts, li, x, y))
+            if tile.service != 'kml' and not exact:
+                near += [self.wmsc.tile(self.wmsc_ts, li, x, y)
+                         for (li, x, y) in self.wmsc.locate(self.wmsc_ts, rect, loose, MIN_OVERLAP_PX)]
+        # two documents that give the very same (non-blank, judged) image slightly different rectangles cannot both be exact
+        for tw in near:
+            status, arr2, problem = self.fetch_tile(tw)
+            if arr2 is not None and arr2.shape == arr.shape and np.array_equal(arr2, arr):
+                dev = max(abs(float(p - q)) for p, q in zip(rect, tw.rect)) / float(rect[2] - rect[0]) * size[0]
+                a, b_ = sorted([tile.service.split('-')[0], tw.service.split('-')[0]])
+                self.stats.classes['cross:near-twin-same-image'] += 1
+                self.violation('C02/cross/%s-vs-%s/same-image-different-rectangle' % (a, b_),
+                               'the documents of %s and %s give the same image rectangles that differ by %.3g px: %r vs %r [%s | %s]'
+                               % (tile.service, tw.service, dev, [float(v) for v in rect], list(tw.frect()), tile.url, tw.url), pick)
         # /tiles: same path as the TileMap, level = TMS level (+1 for the global profiles that hide the
         # single-tile level in TMS), ?origin=sw rows like TMS, ?origin=nw rows like WMTS
         if tm is not None:
